@@ -31,7 +31,8 @@ theorem ridgeSegment_eq (spherical : Bool) (nat : P3 R) (check other s0 s1 : P2 
        let cmp2 : P3 R := if spherical then ⟨dc, t2.1.x, t2.1.y⟩ else ⟨t2.1.x, t2.1.y, dc⟩
        let d1 := distanceSameDepth spherical nat cmp1
        let d2 := distanceSameDepth spherical nat cmp2
-       let r : R × R × R := if d2 < d1 then (d2, t2.2.1, t2.2.2) else (d1, t1.2.1, t1.2.2)
+       let mid := (0.5 : R) * (s0.x + s1.x)
+       let r : R × R × R := if fabs (other.x - mid) < fabs (check.x - mid) then (d2, t2.2.1, t2.2.2) else (d1, t1.2.1, t1.2.2)
        if first ∨ r.1 < acc.distance then { acc with distance := r.1, spreading := r.2.1, subducting := r.2.2 } else acc) := by
   rfl
 
@@ -69,8 +70,22 @@ theorem ridgeSegment_shift (v : P2 F) (nat : P3 F) (check other s0 s1 : P2 F) (v
         v0 v1 sub0 sub1 first acc =
       @ridgeSegment F (fieldScalar T) false nat check other s0 s1 v0 v1 sub0 sub1 first acc := by
   rw [@ridgeSegment_eq F (fieldScalar T), @ridgeSegment_eq F (fieldScalar T)]
+  have hmid : ∀ a : F, @HSub.hSub F F F (@instHSub F (fieldScalar T).toSub) (a + v.x)
+      (@HMul.hMul F F F (@instHMul F (fieldScalar T).toMul) (@OfScientific.ofScientific F (@Scalar.instOfScientific F (fieldScalar T)) 5 true 1)
+        (@HAdd.hAdd F F F (@instHAdd F (fieldScalar T).toAdd) (s0.x + v.x) (s1.x + v.x))) =
+      @HSub.hSub F F F (@instHSub F (fieldScalar T).toSub) a
+      (@HMul.hMul F F F (@instHMul F (fieldScalar T).toMul) (@OfScientific.ofScientific F (@Scalar.instOfScientific F (fieldScalar T)) 5 true 1)
+        (@HAdd.hAdd F F F (@instHAdd F (fieldScalar T).toAdd) s0.x s1.x)) := by
+    intro a
+    have h05 : (@OfScientific.ofScientific F (@Scalar.instOfScientific F (fieldScalar T)) 5 true 1) = 1 / 2 := by
+      show ((OfScientific.ofScientific 5 true 1 : ℚ) : F) = 1 / 2
+      norm_num
+    rw [h05]
+    show a + v.x - 1 / 2 * (s0.x + v.x + (s1.x + v.x)) = a - 1 / 2 * (s0.x + s1.x)
+    ring
   simp only [segClosest_shift, Bool.false_eq_true, if_false, distanceSameDepth, depthCoordinate, P3.shiftXY, P2.shift_x, P2.shift_y,
     sub_shift_cancel]
+  rw [hmid other.x, hmid check.x]
 
 theorem ridgeSegments_shift (v : P2 F) (nat : P3 F) (check other : P2 F) (ridge : List (P2 F)) (vels : List F)
     (subVels : Option (List F)) (sub00 : F) (fuel i : Nat) (acc : RidgeAcc F) :
